@@ -24,9 +24,9 @@ CLAIMS = {
 }
 OPTIONAL_CLAIMS = ('C12.ram', 'C12.subset', 'C12.every_event')
 GOALS = {'quick': ['emit_step greater than a timestep', 'flag off',
-                   'branch-level flag'],
+                   'branch-level flag', 'rows change shape'],
          'thorough': ['emit_step greater than a timestep', 'flag off',
-                      'branch-level flag']}
+                      'branch-level flag', 'rows change shape']}
 STUBS = ['pure stub processes with symbolic constant timesteps and deltas '
          '(indexed by process and call); a step recording batch times; '
          'recording user Emitter whose hook snapshots the store by the '
@@ -37,10 +37,9 @@ ASSUMPTIONS = ['integer time, integer emit_step; units/custom serializers are '
                'without quantities (pint is outside the solver claim)']
 BOUNDS = {'quick': 'N=2 processes, timesteps [1,3], run_for(<=6) then run_for(<=2) (emit_step 1: <=3, <=3), '
                    'emit_step in {1,2,3} (one job each), 2 emit flags symbolic (others fixed, one off), '
-                   'flags via schema / store_schema / branch-level _emit',
+                   'flags via schema / store_schema / branch-level _emit; rows under structural histories (7 operation kinds) compared with the store at emission',
           'thorough': 'timesteps [1,4], intervals <=5, emit_step in 1..4'}
-OUTSIDE = 'structural histories (rows following a changing hierarchy are ' \
-          'checked in C10/C07 harness states, not here); DatabaseEmitter'
+OUTSIDE = 'DatabaseEmitter (MongoDB); quantities'
 
 CTX = {}
 
@@ -108,6 +107,11 @@ def jobs(tier):
                             es=es, nflags=2 if q else 4,
                             budget_s=100 if q else 1200,
                             crosscheck=0 if q else 20))
+    for flavor in ('none', 'flow'):
+        for k in range(7):
+            out.append(dict(name='history-%s-%d' % (flavor, k), part='history',
+                            flavor=flavor, ops=[k] if q else [k, None],
+                            budget_s=100 if q else 900))
     for es in (1, 2):
         out.append(dict(name='ram-schema-es%d' % es, via='schema',
                         emitter='ram', B=2, IVS=[3], es=es, nflags=1,
@@ -167,7 +171,61 @@ def run_engine(ctx, cfg, flags, es, ivs):
     return e, recs
 
 
+def body_history(ctx, cfg):
+    """Rows must follow the changing shape of the hierarchy: a structural
+    history (harness/hist.py) runs under the recording emitter; every row is
+    compared with the harness's own traversal of the store at emission."""
+    from . import hist
+    ts_a = ctx.int('tsa', 1, 2)
+    ts_g = ctx.int('tsg', 1, 2)
+    d = ctx.int('d', -3, 3)
+    kinds = [k if k is not None else ctx.choice('op', len(hist.KINDS))
+             for k in cfg['ops']]
+    recs = []
+
+    def hook(data):
+        e = hist.CTX.get('engine') or hist.CTX.get('constructing')
+        if data['table'] != 'history' or e is None:
+            return
+        recs.append(dict(data=dict(data['data']),
+                         snap=stubs.walk_values(e.state),
+                         g=e.global_time))
+    stubs.reset_sink(hook)
+    try:
+        e = hist.build(ctx, kinds, cfg['flavor'], ts_a, ts_g, d,
+                       emitter={'type': 'vsym_rec'})
+        e.update(2 * len(kinds) + 2)
+    except PathControl:
+        raise
+    except Exception as err:
+        ctx.check_poison()
+        ctx.cut_foreign(err)        # in-flight move / divide: C10's findings
+    emitted_vars = {'x', 'y', 'm'}            # hist.SUB flags all three
+    content = []
+    times = []
+    for r in recs:
+        row = stubs.leaves({k: v for k, v in r['data'].items() if k != 'time'})
+        exp = {p: v for p, v in r['snap'].items()
+               if p[-1] in emitted_vars and p[-2] == 's'}
+        content.append(set(row) == set(exp))
+        content.append(EQ(r['data']['time'], r['g']))
+        content += [EQ(row[p], exp[p]) for p in row if p in exp]
+        times.append(r['data']['time'])
+        ctx.observe('t', r['data']['time'])
+    info = lambda: dict(history=[hist.KINDS[k] for k in kinds],
+                        rows=[r['data'] for r in recs])
+    ctx.claim('C12.content', AND(content), sig='content-history', info=info)
+    ctx.claim('C12.increasing', AND([b > a for a, b in zip(times, times[1:])]),
+              sig='increasing-history', info=info)
+    shapes = {tuple(sorted(stubs.leaves({k: v for k, v in r['data'].items()
+                                         if k != 'time'}))) for r in recs}
+    if len(shapes) > 1:
+        ctx.goal('rows change shape')
+
+
 def body(ctx, cfg):
+    if cfg.get('part') == 'history':
+        return body_history(ctx, cfg)
     CTX.clear()
     CTX['ctx'] = ctx
     CTX['ts'] = {n: ctx.int('ts', 1, cfg['B']) for n in ('p0', 'p1')}
